@@ -31,6 +31,8 @@ func init() {
 				ct := getChunkTables(c, r, "lib:")
 				ruleWriter2(c, r, ct, "lib:")
 				ruleDeepCopy(c, r, "lib:")
+				ruleCopyNCE(c, r, "lib:") // gxz has removed the input when a raw chunk with other bytes is noticed
+				ruleWriteMatchCE(c, r, "lib:")
 				ruleChunkHeaderCodec(c, r, ct, "lib:")
 			}
 			ruleDecoderBounds(c, r, "lib:")
